@@ -11,33 +11,40 @@ import (
 
 func init() {
 	for k, v := range map[string]externalFn{
-		"Byte":          vxByte,
-		"Bool":          vxBool,
-		"Int":           vxInt,
-		"Len":           vxLen,
-		"Choice":        vxChoice,
-		"Bytes":         vxBytes,
-		"Text":          vxText,
-		"Assume":        vxAssume,
-		"Assert":        vxAssert,
-		"Reach":         vxReach,
-		"Param":         vxParam,
-		"Logf":          vxLogf,
-		"Dir":           func(fr *frame, args []value) value { return "/vfs" },
-		"FSStamp":       vxFSStamp,
-		"FSFaults":      vxFSFaults,
-		"EnvSymbolic":   vxEnvSymbolic,
-		"EnvFixed":      vxEnvFixed,
-		"EnvUnset":      vxEnvUnset,
-		"EnvPresent":    vxEnvPresent,
-		"CI":            vxCI,
-		"CISymbolic":    vxCISymbolic,
-		"Trimpath":      vxTrimpath,
-		"Freeze":        vxFreeze,
-		"Shared":        vxShared,
-		"FileStamp":     vxFileStamp,
-		"Symlink":       vxSymlink,
-		"Jitter":        func(fr *frame, args []value) value { return nil },
+		"Byte":        vxByte,
+		"Bool":        vxBool,
+		"Int":         vxInt,
+		"Len":         vxLen,
+		"Choice":      vxChoice,
+		"Bytes":       vxBytes,
+		"Text":        vxText,
+		"Assume":      vxAssume,
+		"Assert":      vxAssert,
+		"Reach":       vxReach,
+		"Param":       vxParam,
+		"Logf":        vxLogf,
+		"Dir":         func(fr *frame, args []value) value { return "/vfs" },
+		"FSStamp":     vxFSStamp,
+		"FSFaults":    vxFSFaults,
+		"EnvSymbolic": vxEnvSymbolic,
+		"EnvFixed":    vxEnvFixed,
+		"EnvUnset":    vxEnvUnset,
+		"EnvPresent":  vxEnvPresent,
+		"CI":          vxCI,
+		"CISymbolic":  vxCISymbolic,
+		"Trimpath":    vxTrimpath,
+		"Freeze":      vxFreeze,
+		"Shared":      vxShared,
+		"FileStamp":   vxFileStamp,
+		"Symlink":     vxSymlink,
+		"Jitter":      func(fr *frame, args []value) value { return nil },
+		"Calibrate": func(fr *frame, args []value) value {
+			if !fr.i.truth(args[0]) {
+				fr.i.abort("harness calibration failed (an unexported function the harness calls directly no longer behaves as the harness assumes): %s", labelOf(args[1]))
+			}
+			return nil
+		},
+		"Stress":        func(fr *frame, args []value) value { return false },
 		"Stagger":       func(fr *frame, args []value) value { return nil },
 		"RunAsSubtest":  vxRunAsSubtest,
 		"SharedGlobals": vxSharedGlobals,
